@@ -12,7 +12,7 @@ import (
 )
 
 // Main is the shared body of harness/cmd/c02 and harness/cmd/c03.
-func Main(prop string, gen func(r *vh.Rand, i int) *Scenario, probes func() []*Scenario) {
+func Main(prop string, gen func(r *vh.Rand, i int) *Scenario, probes func() []*Scenario, fixed func() []*Scenario) {
 	f := vh.ParseFlags()
 	if abs, err := filepath.Abs(f.Out); err == nil {
 		f.Out = abs
@@ -32,7 +32,14 @@ func Main(prop string, gen func(r *vh.Rand, i int) *Scenario, probes func() []*S
 		// replay: the last field of the case line is <seed>:<index> (or probe:<name>)
 		fs := strings.Fields(f.Replay) // recorded case lines have their tabs replaced by blanks
 		id := fs[len(fs)-1]
-		if strings.HasPrefix(id, "probe:") {
+		if strings.HasPrefix(id, "fixed:") && fixed != nil {
+			for _, p := range fixed() {
+				if p.Name == strings.TrimPrefix(id, "fixed:") {
+					scs = append(scs, p)
+					ident[p.Name] = id
+				}
+			}
+		} else if strings.HasPrefix(id, "probe:") {
 			for _, p := range probes() {
 				if p.Name == strings.TrimPrefix(id, "probe:") {
 					runProbes(o, work, []*Scenario{p})
@@ -40,17 +47,30 @@ func Main(prop string, gen func(r *vh.Rand, i int) *Scenario, probes func() []*S
 			}
 			return
 		}
-		parts := strings.SplitN(id, ":", 2)
-		if len(parts) != 2 {
-			fmt.Fprintln(os.Stderr, "replay: case line carries no <seed>:<index>")
-			os.Exit(2)
+		if len(scs) == 0 {
+			parts := strings.SplitN(id, ":", 2)
+			if len(parts) != 2 {
+				fmt.Fprintln(os.Stderr, "replay: case line carries no <seed>:<index>")
+				os.Exit(2)
+			}
+			seed, _ := strconv.ParseUint(parts[0], 10, 64)
+			idx, _ := strconv.Atoi(parts[1])
+			sc := gen(vh.NewRand(seed).Fork(idx), idx)
+			scs = append(scs, sc)
+			ident[sc.Name] = id
 		}
-		seed, _ := strconv.ParseUint(parts[0], 10, 64)
-		idx, _ := strconv.Atoi(parts[1])
-		sc := gen(vh.NewRand(seed).Fork(idx), idx)
-		scs = append(scs, sc)
-		ident[sc.Name] = id
 	} else {
+		if fixed != nil { // regression inputs first (corpus/<prop>/)
+			for _, p := range fixed() {
+				scs = append(scs, p)
+				ident[p.Name] = "fixed:" + p.Name
+			}
+			if d := os.Getenv("VERIF_DUMP_CORPUS"); d != "" {
+				for _, p := range fixed() {
+					os.WriteFile(filepath.Join(d, p.Name+".xgo"), []byte("// "+p.Note+" (scenario fixed:"+p.Name+" of harness/cmd/"+prop+")\n"+xgoSource([]*Scenario{p})), 0o644)
+				}
+			}
+		}
 		r := vh.NewRand(f.Seed)
 		for i := 0; i < f.N; i++ {
 			sc := gen(r.Fork(i), i)
